@@ -203,13 +203,18 @@ def run(W, chk):
 
     # ------------------------------------------------------------ max_concurrent_farms may only grow
     g = PredTrue("new max >= old max", rel(r"^msg\.UpdateConfig\.max_concurrent_farms$", ">=", r"^Store\(CONFIG\)\.max_concurrent_farms$"))
-    pol = CutPolicy([g])
-    A = W.run(fm, "execute", ("UpdateConfig",), pol)
-    bad = []
-    for e in A.writes():
-        if e.extra.get("item") == "CONFIG":
-            if "msg.UpdateConfig.max_concurrent_farms" in all_origins(vfield(e.extra.get("value", EMPTY), "max_concurrent_farms")):
-                bad.append(e)
+    from rules.common import decision
+    _NEW, _OLD = "msg.UpdateConfig.max_concurrent_farms", "Store(CONFIG).max_concurrent_farms"
+    cands = [g] + decision("new max compared with old max", lambda pn, pa: pn in ("lt", "le", "gt", "ge") and len(pa) > 1 and
+                           {frozenset(exact_origins(pa[0])), frozenset(exact_origins(pa[1]))} == {frozenset([_NEW]), frozenset([_OLD])})
+    pol, bad = None, []
+    for c_ in cands:      # direct comparison, or one nested in a combinator (`is_some_and(|m| m < old)`), either polarity
+        pol = CutPolicy([c_])
+        A = W.run(fm, "execute", ("UpdateConfig",), pol)
+        bad = [e for e in A.writes() if e.extra.get("item") == "CONFIG" and
+               _NEW in all_origins(vfield(e.extra.get("value", EMPTY), "max_concurrent_farms"))]
+        if pol.hits and not bad:
+            break
     chk.expect(bool(pol.hits) and not bad, "CUT-max-farms-monotone", "UpdateConfig", "max_concurrent_farms is only written behind `new >= old`",
                "max_concurrent_farms can be lowered (guard found: %s)" % bool(pol.hits), where(bad[0]) if bad else A.entry)
 
